@@ -75,8 +75,11 @@ impl<E: ResilienceEvent> EventListeners<E> {
                 #[cfg(not(feature = "tracing"))]
                 let _ = index;
 
-                #[cfg(not(any(feature = "tracing", feature = "metrics")))]
-                let _ = _panic_payload;
+                // Dropping the payload runs user code too (`panic_any` with a value whose
+                // `Drop` panics): contain that as well, or it escapes to the caller.
+                let _ = std::panic::catch_unwind(std::panic::AssertUnwindSafe(move || {
+                    drop(_panic_payload)
+                }));
             }
         }
     }
